@@ -10,7 +10,8 @@
     domain of the type.  The fuel of the walkers bounds the nesting depth of
     the *descriptor* only and is covered by [wf_ty]. *)
 From Coq Require Import List NArith ZArith Bool.
-From Tongo Require Import Lib.Bits Lib.Res Model.TlbCore Proofs.TlbCoreP Proofs.TlbCoreC Model.VmStack Proofs.VmStackP.
+From Tongo Require Import Lib.Bits Lib.Res Model.TlbCore Proofs.TlbCoreP Proofs.TlbCoreC Model.VmStack Proofs.VmStackP
+  Model.TlbExt Proofs.TlbExtP Proofs.TlbExtP2.
 Import ListNotations.
 
 (** The encoder writes exactly the bits and references the declarative TL-B
@@ -116,6 +117,52 @@ Proof.
   change (2 ^ N.of_nat 10)%N with 1024%N. change (2 ^ N.of_nat 3)%N with 8%N.
   rewrite H1, H2, H3, H4. reflexivity.
 Qed.
+
+(** ** Extension layer (Model/TlbExt.v): snake data (SnakeData, Bytes, Text,
+    TextComment: the rest of the cell continued in a chain of cells hanging off
+    the last reference, so the serialisation depends on how full the cell already
+    is) and length-prefixed bytes (FixedLengthText), under the same combinators.
+    [XBase] embeds every descriptor of the base layer. *)
+
+(** the encoder writes the declarative serialisation at the builder's fill level *)
+Theorem C03_ext_encoder_is_spec : forall fuel t v b b',
+  xenc fuel t v b = Ok b' ->
+  exists bs rs, xspec fuel t v (length (bb b)) = Some (bs, rs) /\
+                bb b' = bb b ++ bs /\ br b' = br b ++ rs.
+Proof. exact xenc_is_spec. Qed.
+
+Theorem C03_ext_prefix_law : forall fuel t v b b',
+  xwf fuel t = true -> xhas_type fuel t v = true ->
+  xenc fuel t v b = Ok b' ->
+  exists bs rs,
+    bb b' = bb b ++ bs /\ br b' = br b ++ rs /\
+    forall tb tr, (xtail fuel t = false \/ (tb = [] /\ tr = [])) ->
+      xdec fuel t (mks (bs ++ tb) (rs ++ tr)) = Ok (v, mks tb tr).
+Proof. exact xprefix_law. Qed.
+
+Theorem C03_ext_generic_roundtrip : forall t v c,
+  xwf_ty t = true -> xin_domain t v = true ->
+  xencode t v = Ok c ->
+  xdecode t c = Ok (v, mks [] []).
+Proof. exact xgeneric_roundtrip. Qed.
+Print Assumptions C03_ext_generic_roundtrip.
+
+(** a snake chain carries every bit string, whatever its length *)
+Theorem C03_snake_roundtrip : forall l c,
+  xencode XSnake (VBits l) = Ok c -> xdecode XSnake c = Ok (VBits l, mks [] []).
+Proof. exact snake_roundtrip. Qed.
+
+Theorem C03_snake_chain_inverse : forall n l, (length l <= n)%nat -> snake_read (snake_chain n l) = l.
+Proof. exact snake_read_chain. Qed.
+
+(** non-vacuity: a struct with a 32-bit op, a reference holding length-prefixed
+    text, and 1500 bits of snake data (two cells) round-trips *)
+Example C03_ext_premises_satisfiable :
+  let t := XStruct [XBase (TMagic 32 0); XRef (XStruct [XLenBytes 8; XLenBytes 8]); XSnake] in
+  let v := VStruct [VUnit; VStruct [VBits (repeat true 16); VBits []]; VBits (repeat false 1500)] in
+  xwf_ty t = true /\ xin_domain t v = true /\
+  exists c, xencode t v = Ok c /\ length (ct_refs c) = 2%nat /\ length (ct_bits c) = 1023%nat.
+Proof. vm_compute. repeat split. eexists. repeat split. Qed.
 
 (** What first-match decoding needs: without pairwise prefix-freeness the
     round trip is false — the decoder selects the earlier constructor. *)
